@@ -72,10 +72,6 @@ impl<'a, F: Read + Write + Seek> MiniChain<'a, F> {
         }
         Ok(())
     }
-
-    pub fn free(self) -> io::Result<()> {
-        self.minialloc.free_mini_chain(self.start_sector_id())
-    }
 }
 
 impl<'a, F> Seek for MiniChain<'a, F> {
